@@ -314,6 +314,24 @@ func checkCmd(opts *RunOpts, args []string) int {
 		}
 		if res.OutOfSubset != "" {
 			outside = append(outside, res.Name+": "+res.OutOfSubset)
+			// the proof no longer applies; before leaving it undecided, run the real function
+			// on small inputs against its contract (plain-value functions and machine readers)
+			if run.World != nil && res.Contract != nil {
+				if cx, _ := run.World.searchCounterexample(opts, res.Contract); cx != nil {
+					in, _ := json.Marshal(cx.Inputs)
+					outj, _ := json.Marshal(cx.Outputs)
+					obs := "results " + string(outj)
+					if cx.PanicMsg != "" {
+						obs = "panic: " + cx.PanicMsg
+					}
+					dir := filepath.Join(outRoot(opts), "replays", prop)
+					os.MkdirAll(dir, 0o755)
+					rp := filepath.Join(dir, sanitize(res.Name+"_ensures."+cx.Clause)+".replay.txt")
+					os.WriteFile(rp, []byte(fmt.Sprintf("property: %s\nobligation: %s#ensures.%s\nkind: contract clause evaluated on the real function (the function left the verified subset: %s)\nfailing input found on the real code (in-package test via go test -overlay; %d small inputs tried)\ninputs: %s\nobserved: %s\n--- replay ---\n%s\n", prop, res.Name, cx.Clause, res.OutOfSubset, cx.Explored, string(in), obs, cx.TestSrc)), 0o644)
+					violations = append(violations, fmt.Sprintf("VIOLATION property=%s replay=%s obligation=%s#ensures.%s failing-input=%s falsifies=%s observed=%s", prop, rp, res.Name, cx.Clause, string(in), cx.Clause, firstLines(obs, 1)))
+					continue
+				}
+			}
 			undecided = append(undecided, fmt.Sprintf("UNDECIDED property=%s function=%s outside the verified subset: %s", prop, res.Name, res.OutOfSubset))
 			continue
 		}
@@ -420,6 +438,37 @@ func checkCmd(opts *RunOpts, args []string) int {
 					undecided = append(undecided, fmt.Sprintf("UNDECIDED property=%s obligation=%s status=%s (not proved on the baseline tree either; not an alarm)", prop, ob.Name, ob.Status))
 					nObl--
 				}
+			}
+		}
+	}
+	// thorough tier: every plain-value function / machine reader under contract is also run on
+	// small inputs against its contract on the real code (bounded conformance, never counted as
+	// discharged); a falsified clause is a violation with its input
+	confFuncs, confInputs := 0, 0
+	if opts.Tier == "thorough" && run.World != nil {
+		for _, res := range run.Results {
+			if res.Contract == nil || res.Trusted || res.OutOfSubset != "" {
+				continue
+			}
+			if _, done := cexCache[res.Name]; done {
+				continue
+			}
+			cx, why := run.World.searchCounterexample(opts, res.Contract)
+			cexCache[res.Name] = cx
+			if cx != nil {
+				in, _ := json.Marshal(cx.Inputs)
+				outj, _ := json.Marshal(cx.Outputs)
+				dir := filepath.Join(outRoot(opts), "replays", prop)
+				os.MkdirAll(dir, 0o755)
+				rp := filepath.Join(dir, sanitize(res.Name+"_conformance."+cx.Clause)+".replay.txt")
+				os.WriteFile(rp, []byte(fmt.Sprintf("property: %s\nobligation: %s#conformance.%s\nkind: contract clause evaluated on the real function for small inputs (thorough tier)\ninputs: %s\nobserved: results %s %s\n--- replay ---\n%s\n", prop, res.Name, cx.Clause, string(in), string(outj), cx.PanicMsg, cx.TestSrc)), 0o644)
+				violations = append(violations, fmt.Sprintf("VIOLATION property=%s replay=%s obligation=%s#conformance.%s failing-input=%s falsifies=%s", prop, rp, res.Name, cx.Clause, string(in), cx.Clause))
+				continue
+			}
+			var n int
+			if _, err := fmt.Sscanf(why, "no failing input among %d small inputs", &n); err == nil {
+				confFuncs++
+				confInputs += n
 			}
 		}
 	}
@@ -566,6 +615,9 @@ func checkCmd(opts *RunOpts, args []string) int {
 		"abstractions":              uniqNotes,
 		"samples":                   samples,
 		"timing":                    map[string]any{"load_s": round3(run.LoadS), "vcgen_s": round3(run.GenS), "solve_s": round3(run.SolveS)},
+	}
+	if confFuncs > 0 {
+		cov["bounded_concrete_conformance"] = map[string]any{"functions": confFuncs, "inputs_run_on_the_real_code": confInputs, "label": "bounded", "note": "contract clauses evaluated by the concrete evaluator on outputs of the real functions for small inputs; never counted as discharged"}
 	}
 	if cov_order != nil {
 		cov["bounded_order_standin"] = cov_order
